@@ -151,7 +151,11 @@ func c03SelectEscape(info *types.Info, fnBody ast.Node, sel *ast.SelectStmt) str
 	return ""
 }
 
-func (x *c03Env) ruleB() {
+func (x *c03Env) ruleB() { x.ruleBAs("C03.b") }
+
+// ruleBAs runs the hand-off rule under the given rule id (C10 reuses it as C10.k: a goroutine of the library that
+// can block for ever on a hand-off never exits, and Close/Suspend, which wait for the parser it feeds, never return).
+func (x *c03Env) ruleBAs(rid string) {
 	c := x.c
 	nRecv := 0
 	for _, f := range x.reach {
@@ -171,18 +175,18 @@ func (x *c03Env) ruleB() {
 					sel, _ := par[par[cc]].(*ast.SelectStmt)
 					if sel != nil {
 						if esc := c03SelectEscape(info, f.body, sel); esc != "" {
-							c.ok("C03.b", key, s.Pos(), "select arm accompanied by %s: the input loop cannot block here for ever", esc)
+							c.ok(rid, key, s.Pos(), "select arm accompanied by %s: the input loop cannot block here for ever", esc)
 						} else {
-							c.bad("C03.b", key, s.Pos(), "send on %s is a select arm, but the select has neither default nor a timer arm: if nobody receives, the input goroutine blocks and no further input is consumed", ch)
+							c.bad(rid, key, s.Pos(), "send on %s is a select arm, but the select has neither default nor a timer arm: if nobody receives, the input goroutine blocks and no further input is consumed", ch)
 						}
 						return true
 					}
 				}
 				if ch == "Vaxis.queue" {
-					c.ok("C03.b", key, s.Pos(), "the designed back-pressure path: the application drains the event queue")
+					c.ok(rid, key, s.Pos(), "the designed back-pressure path: the application drains the event queue")
 					return true
 				}
-				c.bad("C03.b", key, s.Pos(), "blocking send on %s from the input goroutine: a reply that nobody (or nobody any more) waits for — unsolicited, repeated, or arriving after the waiter timed out — blocks the goroutine for ever and no further input is consumed", ch)
+				c.bad(rid, key, s.Pos(), "blocking send on %s from the input goroutine: a reply that nobody (or nobody any more) waits for — unsolicited, repeated, or arriving after the waiter timed out — blocks the goroutine for ever and no further input is consumed", ch)
 			case *ast.UnaryExpr:
 				if s.Op != token.ARROW {
 					return true
@@ -211,14 +215,14 @@ func (x *c03Env) ruleB() {
 					}
 				}
 				nRecv++
-				c.undecided("C03.b", fmt.Sprintf("%s/blocking receive from %s", f.name, canonPath(info, s.X)), s.Pos(),
+				c.undecided(rid, fmt.Sprintf("%s/blocking receive from %s", f.name, canonPath(info, s.X)), s.Pos(),
 					"the input goroutine waits on %s outside its loop select, with no default and no timer: whether the loop survives depends on another goroutine", canonPath(info, s.X))
 			}
 			return true
 		})
 	}
 	if nRecv == 0 {
-		c.okTrivial("C03.b", "input context/no blocking receive besides the loop select", x.loop.pos, "no receive expression outside a select with default/timer in %d functions", len(x.reach))
+		c.okTrivial(rid, "input context/no blocking receive besides the loop select", x.loop.pos, "no receive expression outside a select with default/timer in %d functions", len(x.reach))
 	}
 }
 
